@@ -46,6 +46,9 @@ pub struct Call {
     /// a non-Copy field merged by clone when the source is merged by reference
     #[aggregate(strategy = KeepLast, clone)]
     tag: String,
+    /// keep-last over an optional value: `None` is a value like any other (absent when it came last)
+    #[aggregate(strategy = KeepLast)]
+    opt_last: Option<u64>,
 }
 
 #[aggregate]
@@ -61,6 +64,13 @@ pub struct Plain {
     /// `1 + id % 3` times (equal values recur across inputs, with multiplicities)
     #[aggregate(strategy = Histogram<u64, SortAndMerge>)]
     multi: Histogram<u64, SortAndMerge>,
+    #[aggregate(strategy = KeepLast)]
+    opt_last: Option<u64>,
+}
+
+/// the optional companion of `last`: absent for every third value
+fn opt_of(last: u64) -> Option<u64> {
+    if last % 3 == 0 { None } else { Some(last) }
 }
 
 fn mk_plain(i: &Input) -> Plain {
@@ -68,7 +78,7 @@ fn mk_plain(i: &Input) -> Plain {
     for _ in 0..(1 + i.id % 3) {
         multi.add_value(i.weight % 3);
     }
-    Plain { weight: i.weight, last: i.last, ident: i.id, multi }
+    Plain { weight: i.weight, last: i.last, ident: i.id, multi, opt_last: opt_of(i.last) }
 }
 
 /// an aggregate embedded in a parent unit-of-work entry (closed together with it)
@@ -128,7 +138,7 @@ pub enum AK {
     Merge { tag: u32, id: u64 },
     FlushBegin { tag: u32 },
     FlushEnd { tag: u32 },
-    Emit { sink: u32, keys: Vec<(String, String)>, weight: Option<u64>, last: Option<u64>, ids: Vec<(u64, u64)>, raw_id: Option<u64>, tag: Option<String>, multi: Vec<(u64, u64)> },
+    Emit { sink: u32, keys: Vec<(String, String)>, weight: Option<u64>, last: Option<u64>, ids: Vec<(u64, u64)>, raw_id: Option<u64>, tag: Option<String>, multi: Vec<(u64, u64)>, opt_last: Option<u64> },
     LoggedDrop { tag: u32 },
     FlushReq { fid: u64 },
     FlushDone { fid: u64 },
@@ -174,7 +184,14 @@ static GLOBAL_LOG: Mutex<Option<ALog>> = Mutex::new(None);
 /// inputs whose merge panics (plan key `poison`)
 static POISON: Mutex<BTreeSet<u64>> = Mutex::new(BTreeSet::new());
 
+/// the worker falls behind: the first merge of the run takes this long (simulated time)
+static FIRST_MERGE_SLEEP_NS: AtomicU64 = AtomicU64::new(0);
+
 fn maybe_poison(log: &ALog, tag: u32, id: u64) {
+    let ns = FIRST_MERGE_SLEEP_NS.swap(0, Ordering::SeqCst);
+    if ns > 0 {
+        detsim::sleep_ns(ns);
+    }
     if POISON.lock().unwrap_or_else(|e| e.into_inner()).contains(&id) {
         log.log(AK::MergePanic { tag, id });
         std::panic::panic_any("harness: merging this input panics (user code inside the aggregation sink)");
@@ -297,7 +314,8 @@ fn emit_from(no: u32, t: &TestEntry, raw: bool) -> AK {
     let raw_id = if raw { ids.first().map(|p| p.0) } else { None };
     let tag = t.values.get("tag").cloned();
     let multi = t.metrics.get("multi").map(|m| obs_pairs(&m.distribution)).unwrap_or_default();
-    AK::Emit { sink: no, keys, weight, last, ids, raw_id, tag, multi }
+    let opt_last = t.metrics.get("opt_last").map(|m| m.as_u64());
+    AK::Emit { sink: no, keys, weight, last, ids, raw_id, tag, multi, opt_last }
 }
 
 impl AnyEntrySink for CaptureSink {
@@ -332,6 +350,13 @@ fn inputs_of(plan: &Value) -> HashMap<u64, Input> {
                 let id = ju(op, "id", 0);
                 m.insert(id, Input { id, key: js(op, "key", "k0").to_string(), weight: ju(op, "weight", 0), last: ju(op, "last", 0) });
             }
+            if js(op, "op", "") == "send_many" {
+                // `n` inputs with consecutive ids, spread over `keys` keys
+                for j in 0..ju(op, "n", 0) {
+                    let id = ju(op, "first_id", 0) + j;
+                    m.insert(id, Input { id, key: format!("b{}", j % ju(op, "keys", 1).max(1)), weight: j % 7, last: j });
+                }
+            }
         }
     };
     visit(ja(plan, "main_ops"));
@@ -349,7 +374,7 @@ pub struct AggRun {
 }
 
 fn mk_call(i: &Input) -> Call {
-    Call { endpoint: i.key.clone(), weight: i.weight, last: i.last, ident: i.id, tag: format!("t{}", i.last) }
+    Call { endpoint: i.key.clone(), weight: i.weight, last: i.last, ident: i.id, tag: format!("t{}", i.last), opt_last: opt_of(i.last) }
 }
 
 enum Target {
@@ -485,6 +510,11 @@ fn a_ops(r: &Arc<ARun>, ops: &[Value]) {
     for op in ops {
         match js(op, "op", "") {
             "send" => a_send(r, ju(op, "id", 0), jb(op, "unwind", false)),
+            "send_many" => {
+                for j in 0..ju(op, "n", 0) {
+                    a_send(r, ju(op, "first_id", 0) + j, false);
+                }
+            }
             "flush" => a_flush(r, op),
             "sleep" => detsim::sleep_ns(ju(op, "ns", 0)),
             "yield" => detsim::yield_point(),
@@ -506,6 +536,7 @@ fn tee_sink(log: &ALog) -> TeeSink<KeyedAggregator<Call, CaptureSink>, TeeSink<K
 fn agg_main(plan: &Value, slot: Arc<Mutex<Option<AggRun>>>, log: ALog) {
     *GLOBAL_LOG.lock().unwrap() = Some(log.clone());
     *POISON.lock().unwrap_or_else(|e| e.into_inner()) = ja(plan, "poison").iter().filter_map(|x| x.as_u64()).collect();
+    FIRST_MERGE_SLEEP_NS.store(ju(plan, "first_merge_sleep_ns", 0), Ordering::SeqCst);
     let kind = js(plan, "kind", "keyed").to_string();
     // u64::MAX stands for Duration::MAX ("timer off")
     let interval = match ju(plan, "flush_interval_ns", 1_000_000_000) {
@@ -648,6 +679,7 @@ struct Emitted {
     raw_id: Option<u64>,
     tag: Option<String>,
     multi: Vec<(u64, u64)>,
+    opt_last: Option<u64>,
 }
 
 pub fn check_c10(plan: &Value, run: &AggRun) -> Option<Violation> {
@@ -664,7 +696,7 @@ pub fn check_c10(plan: &Value, run: &AggRun) -> Option<Violation> {
     let mut logged_drop = None;
     for e in h {
         match &e.k {
-            AK::Emit { sink, keys, weight, last, ids, raw_id, tag, multi } => emitted.push(Emitted { seq: e.seq, sink: *sink, keys: keys.clone(), weight: *weight, last: *last, ids: ids.clone(), raw_id: *raw_id, tag: tag.clone(), multi: multi.clone() }),
+            AK::Emit { sink, keys, weight, last, ids, raw_id, tag, multi, opt_last } => emitted.push(Emitted { seq: e.seq, sink: *sink, keys: keys.clone(), weight: *weight, last: *last, ids: ids.clone(), raw_id: *raw_id, tag: tag.clone(), multi: multi.clone(), opt_last: *opt_last }),
             AK::SendBegin { id } => {
                 send_inv.insert(*id, e.seq);
             }
@@ -746,6 +778,9 @@ pub fn check_c10(plan: &Value, run: &AggRun) -> Option<Violation> {
                 if let Some((_, lv)) = latest {
                     if em.last != Some(lv) {
                         return Some(Violation::new("keep_last_mismatch", format!("aggregate {:?} (sink {sink}) reports last={:?}, the input merged last carried {lv}", em.keys, em.last)));
+                    }
+                    if em.opt_last != opt_of(lv) {
+                        return Some(Violation::new("keep_last_mismatch", format!("aggregate {:?} (sink {sink}) reports opt_last={:?} (keep-last over an optional value), the input merged last carried {:?}", em.keys, em.opt_last, opt_of(lv))));
                     }
                     if *keying != "none" && em.tag != Some(format!("t{lv}")) {
                         return Some(Violation::new("keep_last_mismatch", format!("aggregate {:?} (sink {sink}) reports tag={:?} (a field merged by clone), the input merged last carried \"t{lv}\"", em.keys, em.tag)));
@@ -891,7 +926,32 @@ pub fn check_c10(plan: &Value, run: &AggRun) -> Option<Violation> {
 // generation
 // ------------------------------------------------------------------------------------------
 
+/// The worker thread is busy (its first merge takes a second of simulated time) while one producer sends well over
+/// 65 536 entries: the backlog is as long as it gets, and nothing may be dropped from it.
+fn gen_c10_backlog(rng: &mut Rng) -> Value {
+    let n = 66_000 + rng.below(6_000);
+    let sched = gen_sched(rng, &SchedOpts { est_choices: 200, threads: 2, jump_max_ns: 0, stall_clock_max_ns: 0, max_steps: 6_000_000 });
+    json!({
+        "scenario": "aggregation",
+        "sched": sched,
+        "kind": "worker",
+        "poison": [],
+        "first_merge_sleep_ns": 1_000_000_000u64,
+        "flush_interval_ns": 3_600_000_000_000u64,
+        "threads": [],
+        "main_ops": [{"op":"send","id":1,"key":"b0","weight":1,"last":1}, {"op":"sleep","ns":1000}, {"op":"send_many","first_id":10,"n":n,"keys":1 + rng.below(5)}, {"op":"flush","mode":"await"}],
+        "use_guard": false,
+        "final_flush": true,
+        "close_before_join": false,
+        "check_timed_flush": false,
+        "backlog": true,
+    })
+}
+
 pub fn gen_c10(rng: &mut Rng, _tier: Tier) -> Value {
+    if rng.chance(1.0 / 20_000.0) {
+        return gen_c10_backlog(rng);
+    }
     let kind = *rng.pick(&["keyed", "tee", "worker", "worker", "worker", "worker_tee", "mutex", "mutex", "embedded"]);
     let threaded = matches!(kind, "worker" | "worker_tee" | "mutex" | "embedded");
     let nkeys = 1 + rng.below(5);
@@ -920,7 +980,8 @@ pub fn gen_c10(rng: &mut Rng, _tier: Tier) -> Value {
     // 1.5% of the runs: a cardinality spike (hundreds to thousands of distinct keys between two
     // flushes), which exercises hash-table growth and any size-dependent path
     let spike = !threaded && rng.chance(0.06) || (kind == "worker" && rng.chance(0.01));
-    let nmain = if spike { 600 + rng.below(2400) } else if threaded { rng.below(5) } else { 1 + rng.below(14) };
+    // (a fifth of the spikes: well over 4 096 keys)
+    let nmain = if spike { if rng.chance(0.2) { 4_200 + rng.below(5_000) } else { 600 + rng.below(2400) } } else if threaded { rng.below(5) } else { 1 + rng.below(14) };
     let main_ops = if spike {
         let mut ops = vec![];
         let keys = nmain;
@@ -1002,6 +1063,12 @@ impl Scenario for Aggregation {
         if inputs_of(plan).len() >= 600 {
             r.probe("cardinality_spike", 1);
         }
+        if inputs_of(plan).len() >= 4_200 && !jb(plan, "backlog", false) {
+            r.probe("over_4096_keys_in_one_flush", 1);
+        }
+        if jb(plan, "backlog", false) {
+            r.probe("worker_backlog_over_65536", 1);
+        }
         r.case_sig = mix(out.sig, hash_value(&json!([plan.get("threads"), plan.get("main_ops"), plan.get("kind")])));
         let failure = out.failure.clone();
         let main_panic = out.main_panic.clone();
@@ -1061,7 +1128,7 @@ impl Scenario for Aggregation {
         r
     }
     fn probes(&self) -> Vec<&'static str> {
-        vec!["cardinality_spike", "kind_keyed", "kind_tee", "kind_worker", "kind_worker_tee", "kind_mutex", "kind_embedded", "timed_flush_checked", "worker_last_handle_dropped", "merge_panicked_inside_mutex_sink", "merge_panicked_on_worker_thread", "flush_request_failed_loudly"]
+        vec!["cardinality_spike", "kind_keyed", "kind_tee", "kind_worker", "kind_worker_tee", "kind_mutex", "kind_embedded", "timed_flush_checked", "worker_last_handle_dropped", "merge_panicked_inside_mutex_sink", "merge_panicked_on_worker_thread", "flush_request_failed_loudly", "over_4096_keys_in_one_flush", "worker_backlog_over_65536"]
     }
     fn components(&self) -> Value {
         json!({
